@@ -68,7 +68,8 @@ void harness_request_line(void)
 	enum bs_read_callback_return rc = read_start_line(c, line, 8);
 	if (rc == BS_CLOSED) {
 		CHECK(conn_closed, "C13.refused_exchange_closes_the_connection");
-		CHECK(writes_http == 1 && status_line[0] == 'H' && status_line[9] >= '4', "C13.refused_exchange_answered_with_error_status");
+		/* "answered with an HTTP error status or closed": an answer is optional, but if there is one it is a single error status */
+		CHECK(writes_http <= 1 && (writes_http == 0 || (status_line[0] == 'H' && status_line[9] >= '4')), "C13.refused_exchange_answered_with_error_status_if_at_all");
 		CHECK(get_number_of_peers() == peers_before && list_empty(get_peer_list()), "C13.refused_exchange_leaves_no_peer");
 		CHECK(verif_live_blocks == baseline, "C13.refused_exchange_leaves_no_memory");
 		REACH("refused");
